@@ -459,6 +459,37 @@ impl C06 {
                 c
             }
             "empty" => HCirc::new(n),
+            "t_heavy" => {
+                // Hadamard-sandwiched T gates that survive full_simp, so that the decomposer (and
+                // with -p the fork-join path) really runs: H layer, then T / CX / H mixed
+                let n = 2 + d.choose("thn", 2);
+                let mut c = HCirc::new(n);
+                for q in 0..n {
+                    c.gates.push(HGate { k: GK::H, qs: vec![q] });
+                }
+                let len = 6 + d.choose("thl", 10);
+                let mut t = 0;
+                for _ in 0..len {
+                    match d.choose("thk", 6) {
+                        0 | 1 if t < 6 => {
+                            t += 1;
+                            let k = *d.pick("tht", &[GK::T, GK::Tdg]);
+                            c.gates.push(HGate { k, qs: vec![d.choose("thq", n)] });
+                        }
+                        2 | 3 => {
+                            let a = d.choose("tha", n);
+                            let mut b = d.choose("thb", n - 1);
+                            if b >= a {
+                                b += 1;
+                            }
+                            let k = *d.pick("th2", &[GK::CX, GK::CZ]);
+                            c.gates.push(HGate { k, qs: vec![a, b] });
+                        }
+                        _ => c.gates.push(HGate { k: GK::H, qs: vec![d.choose("thh", n)] }),
+                    }
+                }
+                c
+            }
             _ => {
                 let mut c = gen::random_circuit(d, n, ng, base, 6);
                 ensure_no_idle(d, &mut c);
@@ -496,6 +527,7 @@ impl Property for C06 {
             SubBatch { name: "phases", quick: 3_000, thorough: 40_000 },
             SubBatch { name: "idle", quick: 3_000, thorough: 40_000 },
             SubBatch { name: "empty", quick: 500, thorough: 4_000 },
+            SubBatch { name: "t_heavy", quick: 2_500, thorough: 60_000 },
             SubBatch { name: "malformed", quick: 3_000, thorough: 20_000 },
             SubBatch { name: "child", quick: 400, thorough: 4_000 },
             SubBatch { name: "faults", quick: 800, thorough: 8_000 },
